@@ -200,7 +200,9 @@ def behaviour(rng):
             ts = [x for x in ent if ent[x]]
             t = rng.choice(ts)
             steps.append({"op": "exit", "t": t, "s": ent[t].pop()})
-    return {"src": "random-c14", "format": "json", "opts": opts, "opts_first": rng.random() < 0.3, "front": rng.choice(["layer", "layer", "builder"]), "writer": {"shape": "s", "params": {}}, "steps": steps}
+    front = rng.choice(["layer", "layer", "builder"])
+    # (a second JSON subscriber next to the recorded one on the same registry - layer front end only)
+    return {"src": "random-c14", "format": "json", "opts": opts, "opts_first": rng.random() < 0.3, "front": front, "twin": front == "layer" and rng.random() < 0.3, "writer": {"shape": "s", "params": {}}, "steps": steps}
 
 
 def to_trace(behs, lines):
